@@ -82,6 +82,11 @@ func (g *Gen) builtin(f *Frame, v ssa.Value, b *ssa.Builtin, cc *ssa.CallCommon,
 		if ctx != nil && f.parent != nil && !ctx.recovered {
 			ctx.recovered = true
 			set(ctx.val)
+			if v != nil {
+				// go >= 1.21: panic(nil) is turned into a *runtime.PanicNilError, so a recovered value is never nil
+				g.assume(f.en, fmt.Sprintf("(not (= (i_tag %s) 0))", f.vals[v].S))
+				g.trusted["recover() returns a non-nil value while panicking (go1.21+ panic(nil) semantics; go.mod requires go 1.23)"] = true
+			}
 		} else {
 			set(nilIface)
 		}
@@ -279,7 +284,7 @@ func (g *Gen) external(f *Frame, fn *ssa.Function, args []Arg, ins ssa.Instructi
 				app = fmt.Sprintf("(%s %s)", un, strings.Join(ts, " "))
 			}
 			tm := Term{g.defFresh(f.prefix+"ext", rsort, app), rsort, rt}
-			g.typeFacts(f.en, tm, f.st, true)
+			g.typeFacts(f.en, tm, g.now(f.st), true)
 			rs = append(rs, tm)
 		}
 		g.trusted["external "+name+": pure function of its arguments, never panics"] = true
